@@ -118,6 +118,23 @@ pub fn check_program(ctx: &mut Ctx, src: &str) {
         }
         ctx.max("max_reducts_checked_per_trace", k);
     }
+    // evaluation gets stuck (not on a division by zero) although the checker's normaliser computes
+    // a literal for the same hole-free term: the two do not agree on what the program is
+    if let Run::Stuck { class, term, .. } = &obs.run {
+        if *class != crate::pipe::StuckClass::DivByZero {
+            let w = guard(|| {
+                let g = to_gram(&t);
+                let mut dc = vec![];
+                mirror(&crate::normalizer::normalize_weak_head(&g, &mut dc))
+            });
+            match w {
+                Ok(w) if matches!(w, E::Lit(_) | E::True | E::False) => {
+                    viol(ctx, "evaluation-stuck-where-whnf-is-a-literal", &format!("normalize_weak_head gives {} but evaluation is stuck on {term}", w.show()), src);
+                }
+                _ => ctx.count("evaluation-stuck(C01)"),
+            }
+        }
+    }
     // whnf of a ground program is the literal it evaluates to
     if let Run::Value { value, .. } = &obs.run {
         let v = value.zonk();
